@@ -143,6 +143,9 @@ func (g *Geometry) UnmarshalJSON(data []byte) error {
 		return err
 	}
 
+	// g may hold the result of a previous decode
+	g.Coordinates, g.Geometries = nil, nil
+
 	switch jg.Type {
 	case "Point":
 		p := orb.Point{}
@@ -204,6 +207,9 @@ func (g *Geometry) UnmarshalBSON(data []byte) error {
 	if err != nil {
 		return err
 	}
+
+	// g may hold the result of a previous decode
+	g.Coordinates, g.Geometries = nil, nil
 
 	switch bg.Type {
 	case "Point":
